@@ -27,4 +27,24 @@ def methods : List (String × List Ev) := [
   ("All", [.rlock, .read, .callFn, .runlock])  -- iter.go:8
 ]
 
+-- per method: is (one of) its release(s) a top-level `defer s.mu.Unlock()/RUnlock()`?
+def deferredRelease : List (String × Bool) := [
+  ("Get", false),
+  ("GetWithMap", false),
+  ("GetWithLock", false),
+  ("Set", false),
+  ("SetNx", false),
+  ("SetX", false),
+  ("Delete", false),
+  ("Has", false),
+  ("Contains", false),
+  ("Len", false),
+  ("Keys", false),
+  ("Values", false),
+  ("Range", false),
+  ("Clear", false),
+  ("Map", false),
+  ("All", false)
+]
+
 end Golib.Gen.C12
